@@ -117,6 +117,12 @@ def C01(ctx):
             ("c01_n6_%d" % i, ["record", "bdd", "--mode", "c01", "--seed", ctx.seed * 1000 + 500 + i,
                                "--segments", 3, "--len", 250, "--nmax", 6]) for i in range(16 * TH)]
     record_and_validate(ctx, jobs, "TraceBdd", "TraceBdd_C01.cfg")
+    # binding of BddMachine: sessions of a real cache-everything builder under one order per trace; TLC runs the machine on the logged
+    # arguments from ITS OWN store and persistent cache: right function (L1), same diagram and the same number of recursive calls
+    # as the builder's public counter reports, i.e. the same cache hits and misses (L2, MODEL-DRIFT)
+    record_and_validate(ctx, [("machine_%d" % i, ["record", "machine", "--seed", ctx.seed * 1000 + 700 + i, "--segments", 6 if ctx.quick else 12,
+                                                  "--len", 40 if ctx.quick else 60, "--nmax", 3 + (i % 2)])
+                              for i in range(4 if ctx.quick else 16 * TH)], "TraceMachine", "TraceMachine.cfg")
     stress_canonical(ctx, "bdd", check="fn")
 
 
